@@ -486,6 +486,27 @@ theorem no_effect_before_auth (E : Ext) (cfg : Config) (M : Matcher) (id : Nat) 
   · simp [Conn.fresh, hasAuthorizations] at h0
   · exact ⟨a, by rw [hsplit]; exact List.mem_append_left _ ha, hA⟩
 
+/-- `flags_have_causes`: in every history of a fresh connection the three facts the gates read
+each have exactly one possible cause earlier in the same history — the TLS flag a completed
+handshake inside IDENTIFY, held authorizations a successful AUTH, a non-initial state an accepted
+SUB. (The check evaluates exactly these three implications on the traces of the real server.) -/
+theorem flags_have_causes (E : Ext) (cfg : Config) (M : Matcher) (id : Nat) (b0 : Broker)
+    (evs : List Ev) (pre : List Rec) (r : Rec) (post : List Rec)
+    (h : trace E cfg M { conn := Conn.fresh id, broker := b0 } evs = pre ++ r :: post) :
+    (r.pre.conn.tls = true → ∃ q ∈ pre, IsTlsUpgrade cfg q) ∧
+    (hasAuthorizations r.pre.conn = true → ∃ q ∈ pre, IsAuthSuccess q) ∧
+    (r.pre.conn.state ≠ .init → ∃ q ∈ pre, IsSubSuccess q) := by
+  refine ⟨fun ht => ?_, fun ht => ?_, fun ht => ?_⟩
+  · rcases trace_tls E cfg M evs _ pre r post h ht with h0 | h0
+    · simp [Conn.fresh] at h0
+    · exact h0
+  · rcases trace_hasAuth E cfg M evs _ pre r post h ht with h0 | h0
+    · simp [Conn.fresh, hasAuthorizations] at h0
+    · exact h0
+  · rcases trace_state E cfg M evs _ pre r post h ht with h0 | h0
+    · simp [Conn.fresh] at h0
+    · exact h0
+
 /-! ## 5. a whole history -/
 
 /-- a complete session on a TLS-required, auth-enabled server: a publish is refused before TLS (on
